@@ -391,8 +391,19 @@ def run_case(seed_parts, nseq, thorough, threads=False):
     return vio, obs, seqs, subsets
 
 
+def safe_direct_checks():
+    try:
+        return direct_checks()
+    except Exception as e:  # the library misbehaving inside a direct check is an observation, not a harness failure
+        import traceback
+
+        tb = traceback.extract_tb(e.__traceback__)
+        where = next((f"{fr.name}:{fr.lineno}" for fr in tb if fr.filename.endswith("c19.py") and fr.name == "direct_checks"), "?")
+        return [(f"direct-check-exception:{type(e).__name__}", f"registration-scope check at {where} raised {type(e).__name__}: {e}")], {}
+
+
 def run_shard(ctx: Ctx, acc: Acc):
-    vio, obs = direct_checks()
+    vio, obs = safe_direct_checks()
     acc.case()
     for k, v in obs.items():
         acc.count(k, v)
@@ -418,6 +429,6 @@ def run_shard(ctx: Ctx, acc: Acc):
 
 def replay(w):
     if w.get("direct"):
-        return direct_checks()[0]
+        return safe_direct_checks()[0]
     vio, obs, seqs, subsets = run_case(tuple(w["seed_parts"]), w["nseq"], True, w.get("threads", False))
     return vio
